@@ -423,6 +423,18 @@ class _Expr(ast.NodeTransformer):
         if _is_negative(node.test):
             node.test = neg(node.test)
             node.body, node.orelse = node.orelse, node.body
+        # A if A else B  ->  A or B      (A pure: evaluated once or twice makes no difference)
+        if is_pure(node.test) and not reads_state(node.test) and dump(node.test) == dump(node.body):
+            return at(ast.BoolOp(op=ast.Or(), values=[node.body, node.orelse]), node)
+        # X if c else X  ->  X ;  None if X is None else X  ->  X      (both arms give the same value; the test is pure)
+        if is_pure(node.test):
+            if dump(node.body) == dump(node.orelse):
+                return node.body
+            t_ = node.test
+            if isinstance(t_, ast.Compare) and len(t_.ops) == 1 and isinstance(t_.ops[0], (ast.Is, ast.Eq)) and \
+                    isinstance(t_.comparators[0], ast.Constant) and t_.comparators[0].value is None and \
+                    isinstance(node.body, ast.Constant) and node.body.value is None and dump(t_.left) == dump(node.orelse) and is_pure(t_.left):
+                return node.orelse
         # D[K] if K in D else V   ->   D.get(K, V)       (the statement form of this idiom is rewritten the same way)
         t = node.test
         if isinstance(t, ast.Compare) and len(t.ops) == 1 and isinstance(t.ops[0], ast.In):
@@ -842,6 +854,68 @@ class FunctionNormalizer(object):
                     continue
                 self._exprs_of_stmt(st, tr)
         self._scalar_percent()
+        self._ply_slices()
+
+    def _ply_slices(self):
+        '''in a grammar action p_x(self, p) with ONE production in its docstring len(p) is known: p[a:b], p[a:], p[a::k] are the
+        tuples of the corresponding items'''
+        fn = self.fn
+        if not fn.name.startswith('p_') or len(fn.args.args) != 2 or not fn.body:
+            return
+        d0 = fn.body[0]
+        if not (isinstance(d0, ast.Expr) and isinstance(d0.value, ast.Constant) and isinstance(d0.value.value, str)):
+            return
+        lines = [l.split() for l in d0.value.value.splitlines() if l.split()]
+        if len(lines) != 1 or len(lines[0]) < 2 or lines[0][1] not in (':', '::='):
+            return
+        syms = lines[0][2:]
+        if '%prec' in syms:
+            syms = syms[:syms.index('%prec')]
+        n = len(syms) + 1
+        P = fn.args.args[1].arg
+        if any(isinstance(x, ast.Name) and x.id == P and isinstance(x.ctx, ast.Store) for x in ast.walk(fn)):
+            return
+
+        class R(ast.NodeTransformer):
+            def visit_Call(s2, node):
+                s2.generic_visit(node)
+                if isinstance(node.func, ast.Name) and node.func.id == 'len' and len(node.args) == 1 and not node.keywords and \
+                        isinstance(node.args[0], ast.Name) and node.args[0].id == P:
+                    return at(ast.Constant(value=n), node)
+                return node
+
+            def visit_BinOp(s2, node):
+                s2.generic_visit(node)
+                if isinstance(node.left, ast.Constant) and isinstance(node.right, ast.Constant) and type(node.left.value) is int and \
+                        type(node.right.value) is int and isinstance(node.op, (ast.Add, ast.Sub)):
+                    v = node.left.value + node.right.value if isinstance(node.op, ast.Add) else node.left.value - node.right.value
+                    return at(ast.Constant(value=v), node)
+                return node
+
+            def visit_Subscript(s2, node):
+                s2.generic_visit(node)
+                if isinstance(node.value, ast.Name) and node.value.id == P and isinstance(node.ctx, ast.Load) and \
+                        isinstance(node.slice, ast.UnaryOp) and isinstance(node.slice.op, ast.USub) and isinstance(node.slice.operand, ast.Constant) and \
+                        type(node.slice.operand.value) is int and 0 < node.slice.operand.value <= n:
+                    node.slice = at(ast.Constant(value=n - node.slice.operand.value), node.slice)
+                    return node
+                if isinstance(node.value, ast.Name) and node.value.id == P and isinstance(node.slice, ast.Slice) and isinstance(node.ctx, ast.Load):
+                    def const(e, default):
+                        if e is None:
+                            return default
+                        if isinstance(e, ast.Constant) and isinstance(e.value, int):
+                            return e.value
+                        if isinstance(e, ast.UnaryOp) and isinstance(e.op, ast.USub) and isinstance(e.operand, ast.Constant) and isinstance(e.operand.value, int):
+                            return -e.operand.value
+                        return 'x'
+                    lo, hi, st_ = const(node.slice.lower, None), const(node.slice.upper, None), const(node.slice.step, None)
+                    if 'x' in (lo, hi, st_):
+                        return node
+                    idx = list(range(n))[slice(lo, hi, st_)]
+                    return at(ast.Tuple(elts=[ast.Subscript(value=ast.Name(id=P, ctx=ast.Load()), slice=ast.Constant(value=k), ctx=ast.Load()) for k in idx],
+                                        ctx=ast.Load()), node)
+                return node
+        fn.body = [fn.body[0]] + [R().visit(x) for x in fn.body[1:]]
 
     def _scalar_percent(self):
         ''''fmt' % n  ->  'fmt' % (n,)  where n is the variable of a loop / comprehension over range(..): an int, never a tuple'''
@@ -1786,6 +1860,21 @@ class FunctionNormalizer(object):
                     lst[i] = at(ast.Assign(targets=[ast.Name(id=nm, ctx=ast.Store())],
                                            value=ast.IfExp(test=st.test, body=st.body[0].value, orelse=st.orelse[0].value)), st)
                     continue
+                # if N is None: S(None)  else: S(N)   ->   S(N)      (the guarded branch is the general one with the tested value filled in)
+                if isinstance(st, ast.If) and isinstance(st.test, ast.Compare) and len(st.test.ops) == 1 and isinstance(st.test.ops[0], ast.Is) and \
+                        isinstance(st.test.left, ast.Name) and isinstance(st.test.comparators[0], ast.Constant) and st.test.comparators[0].value is None:
+                    nm_ = st.test.left.id
+                    special, general, consumed = st.body, None, 1
+                    if st.orelse:
+                        general = st.orelse
+                    elif special and isinstance(special[-1], ast.Return) and special[-1].value is None and owner is self.fn and fld == 'body':
+                        general, consumed = lst[i + 1:], len(lst) - i
+                        special = special[:-1]
+                    if general and special and nm_ not in set().union(*[names_stored(x) for x in general]):
+                        filled = [_Subst({nm_: ast.Constant(value=None)}).visit(clone(x)) for x in general]
+                        if dump(filled) == dump(special) and dump(filled) != dump(general):
+                            lst[i:i + consumed] = general
+                            continue
                 # if any(c for v in X): B  [else: E]   ->   for v in X: if c: B; break   [else: E]      (any() stops at the first true element)
                 if isinstance(st, ast.If) and isinstance(st.test, ast.Call) and isinstance(st.test.func, ast.Name) and st.test.func.id == 'any' and \
                         len(st.test.args) == 1 and not st.test.keywords and isinstance(st.test.args[0], (ast.GeneratorExp, ast.ListComp)) and \
@@ -1824,6 +1913,42 @@ class FunctionNormalizer(object):
                         new_.append(at(ast.Assign(targets=[clone(st.target)], value=clone(el)), st))
                         new_.extend(clone(x) for x in st.body)
                     lst[i:i + 1] = new_
+                    continue
+                # x = D; if c1: x = A elif c2: x = B   ->   if c1: x = A elif c2: x = B else: x = D      (D a constant; x not read in the chain)
+                if isinstance(st, ast.Assign) and len(st.targets) == 1 and isinstance(st.targets[0], ast.Name) and isinstance(st.value, ast.Constant) and \
+                        isinstance(nxt, ast.If) and self._is_local(st.targets[0].id):
+                    nm_ = st.targets[0].id
+                    chain, cur_, ok_ = [], nxt, True
+                    while True:
+                        chain.append(cur_)
+                        if len(cur_.orelse) == 1 and isinstance(cur_.orelse[0], ast.If):
+                            cur_ = cur_.orelse[0]
+                        else:
+                            break
+                    if chain[-1].orelse:
+                        ok_ = False
+                    for c_ in chain:
+                        if any(isinstance(n, ast.Name) and n.id == nm_ for n in ast.walk(c_.test)):
+                            ok_ = False
+                        if not (len(c_.body) == 1 and isinstance(c_.body[0], ast.Assign) and len(c_.body[0].targets) == 1 and
+                                isinstance(c_.body[0].targets[0], ast.Name) and c_.body[0].targets[0].id == nm_ and
+                                not any(isinstance(n, ast.Name) and n.id == nm_ for n in ast.walk(c_.body[0].value))):
+                            ok_ = False
+                    if ok_:
+                        chain[-1].orelse = [st]
+                        del lst[i]
+                        continue
+                # return None  ->  return
+                if isinstance(st, ast.Return) and isinstance(st.value, ast.Constant) and st.value.value is None:
+                    st.value = None
+                # if A: T = A  else: T = B   ->   T = A or B      (any target; A a plain name)
+                if isinstance(st, ast.If) and len(st.body) == 1 and len(st.orelse) == 1 and isinstance(st.test, ast.Name) and \
+                        all(isinstance(x, ast.Assign) and len(x.targets) == 1 for x in (st.body[0], st.orelse[0])) and \
+                        dump(st.body[0].targets[0]) == dump(st.orelse[0].targets[0]) and is_pure(st.body[0].targets[0]) and \
+                        isinstance(st.body[0].value, ast.Name) and st.body[0].value.id == st.test.id and \
+                        st.test.id not in names_stored(st.body[0].targets[0]):
+                    lst[i] = at(ast.Assign(targets=[st.body[0].targets[0]],
+                                           value=ast.BoolOp(op=ast.Or(), values=[st.body[0].value, st.orelse[0].value])), st)
                     continue
                 # T[k] = a if c else b   ->   if c: T[k] = a  else: T[k] = b     (the value is evaluated before the target either way)
                 if isinstance(st, ast.Assign) and len(st.targets) == 1 and isinstance(st.targets[0], (ast.Subscript, ast.Attribute)) and \
